@@ -76,7 +76,10 @@ json prodMapToJson(const AutBase::ProductTranslMap& m)
 VDRIVE_OP(faincl)
 {
 	FA a = MakeFA(c.at("A"));
-	FA b = MakeFA(c.at("B"));
+	// "bmode": "alias" = the same object is both operands, "copy" = B is a copy of A sharing its storage (value B = A)
+	std::string bmode = c.value("bmode", "");
+	FA bc = (bmode == "copy") ? FA(a) : MakeFA(c.at("B"));
+	const FA& b = (bmode == "alias") ? a : bc;
 	// heap-layout perturbation: the algorithms order macro-states by address
 	std::vector<std::unique_ptr<char[]>> dummies;
 	for (size_t i = 0; i < c.value("perturb", 0u); ++i) { dummies.emplace_back(new char[24 + 8 * (i % 5)]); }
@@ -123,7 +126,9 @@ VDRIVE_OP(faop)
 	bool binary = (kind == "union" || kind == "uniondisj" || kind == "isect");
 	if (binary)
 	{
-		FA b = prep(c.at("B"), c.value("preB", ""), "B1");
+		std::string bmode = c.value("bmode", "");
+		FA bc = (bmode == "copy") ? FA(a) : ((bmode == "alias") ? FA() : prep(c.at("B"), c.value("preB", ""), "B1"));
+		const FA& b = (bmode == "alias") ? a : bc;
 		SetStage(kind.c_str());
 		if (kind == "union")
 		{
